@@ -156,12 +156,144 @@ SIZE_VARS = {
 }
 
 
+def _relocation_rule(ctx, m2):
+    """offset relocation of preserved key-frame data: the map-building pass advances its cursor exactly when it
+    creates a mapping (shared blobs are laid out once), so the cursor equals the position the data pass writes at"""
+    R = ctx.rule("C13.relocation-cursor-advances-only-on-new-mapping", "in every relocation-map loop, `cursor += len` sits under the same vacant-entry test that inserts `cursor` (no advance for an already-mapped shared blob)", floor=12)
+    from .c07 import enclosing_if_conditions
+    for f in m2.fn_list:
+        if f.kind == "Closure" or not f.hir or "::tests::" in f.path:
+            continue
+        for lp in hirq.find(f.hir["body"], "for"):
+            entries = [c for c in hirq.walk(lp["body"]) if c.get("k") == "mcall" and c["m"] == "entry" and "HashMap" in (m2.ty(hirq.strip(c["recv"]).get("t")) or "")]
+            if not entries:
+                continue
+            # inner loops are visited on their own
+            if any(any(e is x for x in hirq.walk(l2["body"])) for l2 in hirq.find(lp["body"], "for") if l2 is not lp for e in entries):
+                continue
+            inserted = set()
+            for c in hirq.walk(lp["body"]):
+                if c.get("k") == "mcall" and c["m"] in ("insert", "or_insert") and c.get("args"):
+                    a = hirq.strip(c["args"][-1])
+                    if a.get("k") == "path" and "local" in a["res"]:
+                        inserted.add(a["res"]["local"])
+            for ao in hirq.walk(lp["body"]):
+                if ao.get("k") != "assignop" or ao["op"] not in ("+", "+=", "Add"):
+                    continue
+                l = hirq.strip(ao["l"])
+                if l.get("k") != "path" or l["res"].get("local") not in inserted:
+                    continue
+                cur = l["res"]["local"]
+                ctx.saw_fn(f)
+                conds = enclosing_if_conditions(lp["body"], ao)
+                vac = False
+                for side, cd in conds:
+                    for x in hirq.walk(cd):
+                        if x.get("k") == "letx" and (hirq.pat_ctor(x["pat"]) or "").endswith("Entry::Vacant") and side == "then":
+                            vac = True
+                        if x.get("k") == "mcall" and x["m"] in ("contains_key",) and side in ("then", "else"):
+                            vac = True
+                        if x.get("k") == "mcall" and x["m"] == "is_none" and "insert" in hirq.render(x) and side == "then":
+                            vac = True
+                inst = {"fn": norm(f.path), "cursor": cur, "line": ao["ln"], "advance": hirq.render(ao)[:60]}
+                if vac:
+                    ctx.ok(R, inst)
+                else:
+                    ctx.bad(R, "%s|%s|%s" % (norm(f.path), cur, re.sub(r"\W+", "_", hirq.render(ao["r"]))[:40]), "%s:%d" % (f.file, ao["ln"]),
+                            "`%s` runs whether or not a new mapping was created (guards: %s)" % (hirq.render(ao)[:60], [hirq.render(cd)[:50] for _, cd in conds] or "none"),
+                            "when two tracks share one key-frame blob the cursor runs ahead of the data actually written: every later relocated offset points past its data and the re-parsed model has different key frames")
+
+
+def _conversion_path_rule(ctx, m2):
+    """M2Converter's multi-step paths: for every (from, to) index pair the listed steps start next to `from` and end at `to`"""
+    R = ctx.rule("C13.conversion-path-reaches-target", "build_conversion_paths: for all index pairs the upgrade slice is (from, to] ascending and the downgrade slice is [to, from) descending — decided over every ordering of the two indices", floor=2)
+    f = m2.fns.get("wow_m2::converter::M2Converter::build_conversion_paths")
+    if f is None or not f.hir:
+        ctx.bad(R, "build_conversion_paths|missing", "-", "function not found", "anchor gone")
+        return
+    ctx.saw_fn(f)
+    body = f.hir["body"]
+    # the version list length
+    n = None
+    for l in hirq.find(body, "let"):
+        if l.get("init") is not None and hirq.strip(l["init"]).get("k") == "array":
+            n = len(hirq.strip(l["init"])["es"])
+    pushes = []
+    for lp in hirq.find(body, "for"):
+        it = lp["iter"]
+        rng = None
+        for x in hirq.walk(it):
+            if x.get("k") == "index" and hirq.strip(x["i"]).get("k") in ("struct", "call"):
+                rng = hirq.strip(x["i"])
+        if rng is None or not any(c.get("k") == "mcall" and c["m"] == "push" for c in hirq.walk(lp["body"])):
+            continue
+        rev = any(c.get("k") == "mcall" and c["m"] == "rev" for c in hirq.walk(it))
+        pushes.append((lp, rng, rev))
+    if n is None or len(pushes) < 2:
+        ctx.bad(R, "build_conversion_paths|shape", f.where, "version list or the two slice loops not recognised (n=%s, loops=%d)" % (n, len(pushes)), "cannot decide the paths")
+        return
+    from .c10 import _ival, _NoEval
+    from .c07 import enclosing_if_conditions
+
+    def bounds(rng, env):
+        """(lo, hi_exclusive) of a Range / RangeInclusive expression"""
+        if rng.get("k") == "struct":
+            fl = dict((a, b) for a, b in rng["fields"])
+            return _ival(fl["start"], env, {}), _ival(fl["end"], env, {})
+        if rng.get("k") == "call" and re.search(r"RangeInclusive(::<\w+>)?::new$", rng.get("fn") or ""):
+            return _ival(rng["args"][0], env, {}), _ival(rng["args"][1], env, {}) + 1
+        raise _NoEval(hirq.render(rng))
+    idx_names = sorted({x["res"]["local"] for _, rng, _ in pushes for x in hirq.walk(rng) if x.get("k") == "path" and "local" in x["res"]})
+    lets = {l["pat"]["name"]: hirq.render(l["init"]) for l in hirq.find(body, "let") if l["pat"].get("k") == "bind" and l.get("init") is not None}
+    frm = next((nm for nm in idx_names if "from" in lets.get(nm, "")), None)
+    to = next((nm for nm in idx_names if "to_" in lets.get(nm, "") or "to)" in lets.get(nm, "")), None)
+    if not frm or not to or frm == to:
+        ctx.bad(R, "build_conversion_paths|roles", f.where, "cannot tell the source index from the target index among %s" % idx_names, "cannot decide the paths")
+        return
+    for lp, rng, rev in pushes:
+        conds = enclosing_if_conditions(body, lp)
+        up = None
+        for side, cd in conds:
+            r_ = hirq.render(cd)
+            if re.search(r"direction|>", r_):
+                up = (side == "then") == bool(re.search(r"> 0|> %s|%s >" % (frm, to), r_))
+        label = "upgrade" if not rev else "downgrade"
+        bad = None
+        checked = 0
+        for a in range(n):
+            for b in range(n):
+                if a == b or abs(a - b) == 1:
+                    continue          # identical / adjacent pairs take the direct path
+                if (b > a) != (not rev):
+                    continue
+                try:
+                    lo, hi = bounds(rng, {frm: a, to: b})
+                except _NoEval as e:
+                    ctx.bad(R, "build_conversion_paths|%s|opaque" % label, "%s:%d" % (f.file, lp["ln"]), "slice bounds `%s` not evaluable (%s)" % (hirq.render(rng)[:60], e), "cannot decide")
+                    return
+                seq = list(range(lo, hi))
+                if rev:
+                    seq.reverse()
+                want = list(range(a + 1, b + 1)) if b > a else list(range(a - 1, b - 1, -1))
+                checked += 1
+                if seq != want and bad is None:
+                    bad = (a, b, seq, want)
+        if bad:
+            a, b, seq, want = bad
+            ctx.bad(R, "build_conversion_paths|%s" % label, "%s:%d" % (f.file, lp["ln"]), "%s path from index %d to %d visits %s; it must visit %s" % (label, a, b, seq, want),
+                    "the multi-step conversion stops one version short of (or skips / overshoots) the requested target: convert(model, target) returns a model of another version")
+        else:
+            ctx.ok(R, {"direction": label, "slice": hirq.render(rng)[:60], "pairs_checked": checked})
+
+
 def run(ctx):
     prog = ctx.prog
     m2 = prog.crate(CR)
     R_pair = ctx.rule("C13.parse-write-wire-agreement", "for every linear parse/write pair the writer's wire signature equals the reader's at every version of the domain", floor=55)
     R_size = ctx.rule("C13.record-size-constants", "each record-size constant in M2Model::write equals the computed width of that record's writer at every version", floor=3)
 
+    _relocation_rule(ctx, m2)
+    _conversion_path_rule(ctx, m2)
     by_owner = owners(m2)
     armed = 0
     for owner, fs in sorted(by_owner.items()):
